@@ -218,7 +218,16 @@ where
                 client_local.send(item).await.unwrap_or_else(|e| error!("[udp] failed to send inbound msg; error={}", e));
             }
             // local->client|inbound
-            Some(Ok(((content, target), sender))) = local_client.next() => {
+            next = local_client.next() => {
+                let ((content, target), sender) = match next {
+                    Some(Ok(msg)) => msg,
+                    // a malformed local datagram is dropped; the socket keeps serving the datagrams that follow
+                    Some(Err(e)) => {
+                        error!("[udp] drop local datagram; error={}", e);
+                        continue;
+                    }
+                    None => break,
+                };
                 let key = new_key(sender, &target);
                 let _key = key.clone();
                 match client_server_cache.entry(key) {
